@@ -2,17 +2,25 @@
 #include <stdlib.h>
 #include <stdatomic.h>
 
-static _Atomic long g_count, g_failed, g_fail_from;
+static _Atomic long g_count, g_failed, g_fail_from, g_fail_size, g_live, g_maxreq;
 
 void *sluv_malloc(size_t size)
 {
     long k = atomic_fetch_add(&g_count, 1) + 1;
     long f = atomic_load(&g_fail_from);
     if (f > 0 && k >= f) { atomic_fetch_add(&g_failed, 1); return NULL; }
-    return malloc(size);
+    long fs = atomic_load(&g_fail_size);
+    long mr = atomic_load(&g_maxreq); while ((long)size > mr && !atomic_compare_exchange_weak(&g_maxreq, &mr, (long)size)) { }
+    if (fs > 0 && (long)size >= fs) { atomic_fetch_add(&g_failed, 1); return NULL; }     /* size-dependent refusal: big requests fail, small ones succeed */
+    void *p = malloc(size);
+    if (p) atomic_fetch_add(&g_live, 1);
+    return p;
 }
-void sluv_free(void *p) { free(p); }
-void sluv_alloc_reset(void) { atomic_store(&g_count, 0); atomic_store(&g_failed, 0); atomic_store(&g_fail_from, 0); }
+void sluv_free(void *p) { if (p) atomic_fetch_add(&g_live, -1); free(p); }
+void sluv_alloc_fail_size(long bytes) { atomic_store(&g_fail_size, bytes); }
+long sluv_alloc_live(void) { return atomic_load(&g_live); }
+long sluv_alloc_maxreq(void) { return atomic_load(&g_maxreq); }
+void sluv_alloc_reset(void) { atomic_store(&g_count, 0); atomic_store(&g_failed, 0); atomic_store(&g_fail_from, 0); atomic_store(&g_fail_size, 0); atomic_store(&g_maxreq, 0); }
 void sluv_alloc_fail_from(long k) { atomic_store(&g_fail_from, k); }
 long sluv_alloc_count(void) { return atomic_load(&g_count); }
 long sluv_alloc_failed(void) { return atomic_load(&g_failed); }
